@@ -175,6 +175,9 @@ def build_http_config(rng, keyname="rsa1024_a", hostile=False, extras=True, allo
     m["useragent"] = ua[:126]
     m["verb_get"] = rng.choice(["GET", "GET", "POST"])
     m["verb_post"] = rng.choice(["POST", "POST", "GET"])
+    if m["verb_get"] != m["verb_post"] and len(m["uris"][0]) < 60 and rng.random() < 0.08:
+        # the same URI for check-ins and callbacks, told apart by the verb alone (routing is by verb AND URI prefix)
+        m["submit_uri"] = m["uris"][0]
     m["get_prog"] = gen_client_program(rng, [(0, "metadata")], allow_uri=allow_uri, hostile=hostile)
     builds = [(0, "id"), (1, "output")]
     if rng.random() < 0.3:
